@@ -96,6 +96,12 @@ func serialFor(i int) *big.Int {
 }
 
 func mkCert(fam, cn string, serial *big.Int, isCA bool, key crypto.PrivateKey, parent *ident, lane byte) (*smx509.Certificate, error) {
+	return mkCertOptSKI(fam, cn, serial, isCA, key, parent, lane, true)
+}
+
+// mkCertOptSKI with withSKI=false leaves the subjectKeyIdentifier extension out (the default for end-entity certificates
+// that a CA does not give one).
+func mkCertOptSKI(fam, cn string, serial *big.Int, isCA bool, key crypto.PrivateKey, parent *ident, lane byte, withSKI bool) (*smx509.Certificate, error) {
 	ski := sha1.Sum([]byte(fam + "/" + cn))
 	tpl := &x509.Certificate{
 		SerialNumber: serial,
@@ -105,6 +111,9 @@ func mkCert(fam, cn string, serial *big.Int, isCA bool, key crypto.PrivateKey, p
 		KeyUsage:     x509.KeyUsageDigitalSignature | x509.KeyUsageKeyEncipherment | x509.KeyUsageDataEncipherment,
 		ExtKeyUsage:  []x509.ExtKeyUsage{x509.ExtKeyUsageEmailProtection},
 		SubjectKeyId: ski[:],
+	}
+	if !withSKI {
+		tpl.SubjectKeyId = nil
 	}
 	if isCA {
 		tpl.IsCA = true
